@@ -469,7 +469,9 @@ func verifRunC20(c *verifsim.Ctx) {
 			}
 		}
 		limH, limB, limS = pick("lim-headers", hl), pick("lim-body", bl), pick("lim-sig", sl)
-		bufSize := verifMin([]int{16, 64, 512, 4096}[c.Draw("buf-size", 4)], verifMin(limH, limS))
+		// buffer sizes include the two that put a "\n\n" delimiter across
+		// the end of the decoder's first look-ahead window
+		bufSize := verifMin([]int{16, 64, 512, 4096, hl + 1, sl, verifMax((hl+1)/2, 4)}[c.Draw("buf-size", 7)], verifMin(limH, limS))
 		mkDecoder = func(r io.Reader) *asserts.Decoder {
 			return asserts.NewDecoderStressed(r, bufSize, limH, limB, limS)
 		}
